@@ -14,7 +14,7 @@ PROP = "C18"
 TECHNIQUE = "results are produced by running every public evaluation on Hypothesis-generated inputs (incl. -inf, NaN, None statistics), then written with csep.write_json and reloaded with csep.load_evaluation_result and compared field by field (round trip); regions: to_dict -> JSON text -> from_dict compared by lookups on constructed probe points"
 RULE = ("one case = generated gridded forecast pair + catalog + catalog forecast; every evaluation that can produce a result class is run "
         "(Poisson N, L, CL, S, M, T, W; NBD N; binary S, CL, T; Brier; catalog N, S, M, PL, resampled-M, MLL; calibration) and each result "
-        "goes through write_json -> load_evaluation_result; or one Cartesian lattice (C01 generator) through to_dict -> json -> from_dict "
+        "goes through write_json -> load_evaluation_result; or one Cartesian lattice (C01 generator; built by from_origins or, half of the cases, by the class constructor from explicit polygons) through to_dict -> json -> from_dict "
         "probed at its structured point set. Non-trivial = result with a non-finite or None field, or a catalog-test result class; "
         "distinct = canonical JSON.")
 ASSUMPTIONS = ["numbers compared exactly (JSON repr round-trips doubles), NaN == NaN, tuples compared with lists element-wise",
